@@ -13,6 +13,26 @@ PROOF_NOTE = ("Trusted: Lean 4.33 kernel + axioms propext/Classical.choice/Quot.
               "tables/constants (Strophe/Gen). ")
 
 CLAIMED = {
+    "C09": dict(
+        engine="stz", design="5.9",
+        technique="Lean 4 theorems (escape/unescape, parse(render t) = canon t for every well-formed tree against an independent XML reader spec, exact to_text for every buffer size, copy/reply structure) over a byte-exact model of stanza.c + hash.c + differential correspondence with three independent readers",
+        text=("escape_no_breakout, unescape_escape, toText_exact (any size: below/at/above the 1024-byte first buffer), "
+              "parse_render (any depth/fan-out, attributes, namespace scoping) against Spec/Xml.lean, copy_deep/copy_same_tree, "
+              "reply_addresses_sender, reply_error_structure; hash.c modelled exactly (bucket order) so rendering is byte-exact. "
+              "Re-reading through xmpp_stanza_new_from_string is proved under NoUndecl (reread_*_partial); the full statement is "
+              "false (machine-checked witness) and recorded as known finding F2. Tied to the code every run: random API programs, "
+              "rendered bytes read back by the Lean spec reader, raw expat, Python ElementTree and the library's own parser."),
+        note=PROOF_NOTE + "copy independence of C objects (no sharing) is checked by the differential run, value semantics in the model; known finding C09:reparse:reread-undeclared-ns."),
+    "C20": dict(
+        engine="zl", design="5.20",
+        technique="Lean 4 theorems over the staging-layer model with zlib as a parameter under named hypotheses (H-zlib), recorded-parameter replay of every deflate/inflate call of the real zlib",
+        text=("write_transparent (ANY partial-write/EAGAIN/hard-error schedule of the lower transport: what the peer can inflate is "
+              "always a prefix of the submitted stream and equals it after an iteration whose transport accepted everything), "
+              "read_transparent (ANY fragmentation: delivered plaintext = plaintext of everything that arrived, connection stays up), "
+              "no_spurious_disconnect, free_releases_everything, reads/writes leave the other side alone. zlib is a Codec parameter "
+              "with hypotheses HDeflate/HInflate, checked on every recorded call of the real zlib at run time. Eight defects found "
+              "and repaired in /repo."),
+        note=PROOF_NOTE + "H-zlib (stream correctness + progress of deflate/inflate) is assumed in the theorems and tested at run time; loop termination carries a fuel hypothesis (needs a quantitative zlib progress bound)."),
     "C16": dict(
         engine="smblob", design="5.16",
         technique="Lean 4 round-trip / strictness / bounds-safety theorems over a byte-level model of the SM blob codec + full-state differential correspondence on a real connection object",
